@@ -83,9 +83,16 @@ def run(tier):
                 ds.add(t[1]["d"])
                 if t[1]["d"] == "value::JsValue::to_number":
                     where = t[6]
-        if "value::JsValue::to_number" not in ds:
+        # arms that turn operands into numbers: through the raw conversion, through the hook-aware one, or through a VM helper
+        # that does (`compare_operands`); the raw conversion alone is the finding
+        conv = {"value::JsValue::to_number", "interpreter::Interpreter::coerce_to_number", "interpreter::Interpreter::coerce_to_primitive"}
+        helpers = {d for d in ds if d in fx.fns and d.startswith("interpreter::bytecode_vm::BytecodeVM::") and
+                   any(t2[1].get("d") in conv for _, t2 in fx.fns[d].calls())}
+        if not (ds & conv) and not helpers:
             continue
-        hook = any(d in co for d in ds)
+        if where is None:
+            where = ex.blocks[tgt]["t"][6] if ex.blocks[tgt]["t"][0] == "call" else ex.span
+        hook = any(d in co for d in ds) or "value::JsValue::to_number" not in ds
         ck.instance("R2.operator-coercion", "Op::" + var, F.short_span(where), ok=hook)
         if not hook:
             ck.finding("R2.operator-coercion", "R2.operator-coercion/Op::" + var, F.short_span(where),
